@@ -485,7 +485,7 @@ pub fn held(s: impl Strategy<Value = NetCase>) -> impl Strategy<Value = NetCase>
 /// a TLS configuration, `https://` origins. (Debugging aid: VERIF_NET_TLS=1 / 0 forces it on / off.)
 pub fn secured(s: impl Strategy<Value = NetCase>) -> impl Strategy<Value = NetCase> {
     let forced = std::env::var("VERIF_NET_TLS").ok().map(|v| v == "1");
-    (s, prop_oneof![2 => Just(false), 1 => Just(true)], prop_oneof![3 => Just(0u8), 1 => Just(1u8), 1 => Just(2u8)]).prop_map(move |(mut c, tls, not_ready)| {
+    (s, prop_oneof![2 => Just(false), 1 => Just(true)], prop_oneof![3 => Just(0u8), 3 => 1u8..9]).prop_map(move |(mut c, tls, not_ready)| {
         c.tls = forced.unwrap_or(tls);
         // (a transport that is not ready at once, as `tower::Service` allows)
         c.transport_not_ready = not_ready;
